@@ -78,19 +78,8 @@ class _OracleModel:
                 return empty if isinstance(op, ast.Eq) else not empty
         return None
 
-    def ev(self, t, st):
-        a = self.atom(t, st)
-        if a is not None:
-            return a
-        if isinstance(t, ast.BoolOp):
-            vals = [self.ev(v, st) for v in t.values]
-            return all(vals) if isinstance(t.op, ast.And) else any(vals)
-        if isinstance(t, ast.UnaryOp) and isinstance(t.op, ast.Not):
-            return not self.ev(t.operand, st)
-        raise AnalysisError("oracle: test `%s` outside the analysed fragment" % src(t))
-
     def kind(self, value, var):
-        """'fresh' | 'zero' | 'stored' for an assignment of the gradient / value variable"""
+        """'fresh' | 'zero' | 'stored-value' | 'stored-gradient' for an assignment of the gradient / value variable"""
         if isinstance(value, ast.Call) and call_name(value) in ("Point", "Expression"):
             leaf = get_arg(value, 0, "is_leaf")
             if leaf is None or is_const(leaf, True):
@@ -108,52 +97,64 @@ class _OracleModel:
         return "other:" + src(value)[:40]
 
     def run(self, st):
-        """-> dict(outcome, f, g, recorded)"""
-        state = {"f": None, "g": None, "recorded": None, "outcome": None}
+        """-> dict(outcome, f, g, recorded) for abstract state st = (evaluated, differentiable, no term needs a value, no term needs a gradient only)"""
+        from ..absint import PathEval, bool_decider
+        decide = bool_decider(lambda t: self.atom(t, st))
 
-        def body(stmts):
-            for s in stmts:
-                if state["outcome"]:
-                    return
-                if isinstance(s, ast.Return):
-                    if dotted(s.value) == self.lookup:
-                        state["outcome"] = "return-stored-pair"
-                    elif isinstance(s.value, ast.Tuple) and [dotted(e) for e in s.value.elts] == [self.g, self.f]:
-                        state["outcome"] = "return-g-f"
-                    else:
-                        state["outcome"] = "return " + src(s.value)
-                elif isinstance(s, ast.If):
-                    body(s.body if self.ev(s.test, st) else s.orelse)
-                elif isinstance(s, ast.Assign) and isinstance(s.targets[0], ast.Name) and s.targets[0].id in (self.f, self.g):
-                    v = "f" if s.targets[0].id == self.f else "g"
-                    state[v] = self.kind(s.value, v)
-                elif isinstance(s, ast.For):
-                    # accumulation  v += weight * function.value(point) / function.gradient(point)  over all weights
-                    it = s.iter
-                    whole = isinstance(it, ast.Call) and call_name(it) == "items" and dotted(it.func.value) == "self.decomposition_dict"
-                    for b in s.body:
-                        if isinstance(b, ast.AugAssign) and isinstance(b.target, ast.Name) and b.target.id in (self.f, self.g) and isinstance(b.op, ast.Add):
-                            v = "f" if b.target.id == self.f else "g"
-                            fnv, w = [e.id for e in s.target.elts] if isinstance(s.target, ast.Tuple) else (None, None)
-                            val = b.value
-                            ok = whole and isinstance(val, ast.BinOp) and isinstance(val.op, ast.Mult) and state[v] == "zero"
-                            if ok:
-                                parts = [val.left, val.right]
-                                calls = [p for p in parts if isinstance(p, ast.Call) and dotted(p.func.value) == fnv]
-                                ws = [p for p in parts if dotted(p) == w]
-                                want = "value" if v == "f" else ("gradient", "subgradient")
-                                ok = len(calls) == 1 and len(ws) == 1 and (call_name(calls[0]) == want if v == "f" else call_name(calls[0]) in want)
-                            state[v] = "combination" if ok else "bad-combination:" + norm_stmt(b)[:50]
-                elif isinstance(s, ast.Expr) and isinstance(s.value, ast.Call) and call_name(s.value) == "add_point":
-                    a = get_arg(s.value, 0, "triplet")
+        def strict(t):
+            v = decide(t)
+            if v is None and isinstance(t, ast.Call) and call_name(t) == "isinstance":
+                return None          # argument checks (assert isinstance(...)): both outcomes explored, the failing one is not a bookkeeping path
+            if v is None:
+                raise AnalysisError("oracle: test `%s` outside the analysed fragment" % src(t))
+            return v
+        paths = PathEval(self.fn, strict, loop_mode="once").run()
+        paths = [p for p in paths if not (p.kind == "raise" and p.exc == "AssertionError")]
+        results = []
+        for p in paths:
+            state = {"f": None, "g": None, "recorded": None, "outcome": None}
+            for ev in p.trace:
+                if isinstance(ev, ast.Assign) and isinstance(ev.targets[0], ast.Name) and ev.targets[0].id in (self.f, self.g):
+                    v = "f" if ev.targets[0].id == self.f else "g"
+                    state[v] = self.kind(ev.value, v)
+                elif isinstance(ev, ast.AugAssign) and isinstance(ev.target, ast.Name) and ev.target.id in (self.f, self.g) and isinstance(ev.op, ast.Add):
+                    v = "f" if ev.target.id == self.f else "g"
+                    lp = flow.in_loop(ev)
+                    ok = False
+                    if lp is not None and isinstance(lp, ast.For) and isinstance(lp.iter, ast.Call) and call_name(lp.iter) == "items" \
+                            and dotted(lp.iter.func.value) == "self.decomposition_dict" and isinstance(lp.target, ast.Tuple) and state[v] == "zero":
+                        fnv, w = [e.id for e in lp.target.elts]
+                        val = ev.value
+                        if isinstance(val, ast.BinOp) and isinstance(val.op, ast.Mult):
+                            parts = [val.left, val.right]
+                            calls = [q for q in parts if isinstance(q, ast.Call) and isinstance(q.func, ast.Attribute) and dotted(q.func.value) == fnv]
+                            ws = [q for q in parts if dotted(q) == w]
+                            want = ("value",) if v == "f" else ("gradient", "subgradient")
+                            ok = len(calls) == 1 and len(ws) == 1 and call_name(calls[0]) in want
+                    state[v] = "combination" if ok else "bad-combination:" + norm_stmt(ev)[:50]
+                elif isinstance(ev, ast.Expr) and isinstance(ev.value, ast.Call) and call_name(ev.value) == "add_point":
+                    a = get_arg(ev.value, 0, "triplet")
                     state["recorded"] = [src(e) for e in a.elts] if isinstance(a, ast.Tuple) else src(a)
-                elif isinstance(s, (ast.Assert, ast.Assign, ast.Expr, ast.AugAssign, ast.Pass)):
-                    continue
+            if p.kind == "return":
+                last = p.trace[-1]
+                rv = last.value if isinstance(last, ast.Return) else None
+                if rv is not None and dotted(rv) == self.lookup or p.value_text == self.lookup:
+                    state["outcome"] = "return-stored-pair"
+                elif isinstance(rv, ast.Tuple) and [dotted(e) for e in rv.elts] == [self.g, self.f]:
+                    state["outcome"] = "return-g-f"
                 else:
-                    raise AnalysisError("oracle: statement `%s` outside the analysed fragment" % norm_stmt(s)[:50])
-
-        body(self.fn.body)
-        return state
+                    state["outcome"] = "return " + (p.value_text or "None")
+            else:
+                state["outcome"] = p.kind + (" " + p.exc if p.exc else "")
+            results.append(state)
+        # all paths of one abstract state must agree
+        if not results:
+            raise AnalysisError("oracle: no path for state %s" % (st,))
+        first = results[0]
+        for r in results[1:]:
+            if r != first:
+                return {"outcome": "paths disagree: %s / %s" % (first, r), "f": None, "g": None, "recorded": None}
+        return first
 
 
 def r_onevalue(ctx):
@@ -327,8 +328,13 @@ def r_addpoint(ctx):
     ctx.ob("R-ADDPOINT", "Function.add_point::members pruned before registration", ok_order,
            "point, gradient and value are pruned before the sample is registered (the lookup compares pruned decompositions)" if ok_order else
            "not all three members of the sample are pruned before registration: a point with an explicit zero weight is never recognised again", loc(fn, fn))
-    okr = len(reg) == 1 and dotted(reg[0].value.args[0]) == trip
-    ctx.ob("R-ADDPOINT", "Function.add_point::registered", okr, "every sample is appended to list_of_points unconditionally" if okr else "registration in list_of_points is missing / conditional", loc(fn, fn))
+    pc = flow.path_counts(fn.body, lambda n: isinstance(n, ast.Call) and call_name(n) == "append" and dotted(n.func.value) == "self.list_of_points")
+    normal = pc.get("next", set()) | pc.get("return", set())
+    okr = len(reg) == 1 and dotted(reg[0].value.args[0]) == trip and normal == {1}
+    ctx.ob("R-ADDPOINT", "Function.add_point::registered", okr,
+           "every sample handed to add_point is appended to list_of_points, on every path" if okr else
+           "on some path add_point completes without registering the sample (appends per completing path: %s): a step that records a sample on the "
+           "function (e.g. a proximal step at an already evaluated point) silently loses it" % sorted(normal), loc(fn, fn))
     st = [c for c in ast.walk(fn) if isinstance(c, ast.Call) and call_name(c) == "append" and dotted(c.func.value) == "self.list_of_stationary_points"]
     oks = False
     if len(st) == 1:
